@@ -1,5 +1,6 @@
 import RemocModel.Table.Lemmas
 import RemocModel.Table.ConnSys
+import RemocModel.Table.ConnBridge
 import RemocModel.Table.ConnLog
 set_option linter.unusedSimpArgs false
 
